@@ -43,6 +43,7 @@ type Contract struct {
 	Nullable     map[string]bool
 	InstGoalOnly bool
 	Cuts         []*CutSpec
+	LineAsserts  []*LineAssert
 	used         bool
 }
 
@@ -84,6 +85,17 @@ func (c *Contract) modes() []string {
 	return out
 }
 
+// LineAssert: `assert[label] "marker": E` — E is checked (then assumed) just before the first instruction at or
+// after the first source line of the function that contains marker; with Cut, earlier path facts are dropped
+// for the obligations that follow (`assert-cut`).
+type LineAssert struct {
+	Marker string
+	Cl     *Clause
+	Cut    bool
+	target ssa.Instruction
+	done   bool
+}
+
 type CutSpec struct {
 	Name string
 	K    int
@@ -114,9 +126,9 @@ type Lemma struct {
 }
 
 var clauseKW = map[string]bool{"func": true, "pure": true, "requires": true, "ensures": true, "assigns": true,
-	"panics-if": true, "loop": true, "callsite": true, "assumed": true, "mode": true, "lemma": true, "noauto": true, "wraps": true, "nullable": true, "instantiate": true, "inst": true, "cut": true, "uf": true, "axiom": true}
+	"panics-if": true, "loop": true, "callsite": true, "assumed": true, "mode": true, "lemma": true, "noauto": true, "wraps": true, "nullable": true, "instantiate": true, "inst": true, "cut": true, "assert": true, "assert-cut": true, "uf": true, "axiom": true}
 
-var labelRe = regexp.MustCompile(`^(requires|ensures|panics-if|callsite|pure)\[([A-Za-z0-9_.:-]+)\]`)
+var labelRe = regexp.MustCompile(`^(requires|ensures|panics-if|callsite|pure|assert|assert-cut)\[([A-Za-z0-9_.:-]+)\]`)
 
 type rawClause struct {
 	kw, label, text string
@@ -345,6 +357,18 @@ func (e *Engine) loadContractFile(path string, pkg *ssa.Package) error {
 				cur.NoAuto = true
 			case "wraps":
 				cur.Wraps = true
+			case "assert", "assert-cut":
+				m := regexp.MustCompile(`^"([^"]+)"\s*:\s*(.*)$`).FindStringSubmatch(rc.text)
+				if m == nil {
+					return fmt.Errorf("%s:%d: bad assert clause (want 'assert \"marker\": E')", path, rc.line)
+				}
+				rc2 := rc
+				rc2.text = m[2]
+				cl, err := mk(rc2)
+				if err != nil {
+					return err
+				}
+				cur.LineAsserts = append(cur.LineAsserts, &LineAssert{Marker: m[1], Cl: cl, Cut: rc.kw == "assert-cut"})
 			case "inst":
 				if strings.TrimSpace(rc.text) == "goal-only" {
 					cur.InstGoalOnly = true
